@@ -10,7 +10,8 @@ EXPLANATION = ("Encoders: every `From<X> for RawControl` / `From<X> for Exop` is
                "Decoders: PagedResults, SyncState, SyncDone, parse_syncinfo, ReadEntryResp, PasswordModifyResp, WhoAmIResp, StartTxnResp - "
                "which child ordinal / tag feeds which field, required class/tag checks, the EntryState and SyncInfo choice tables and the "
                "RFC 4533 defaults (refreshDone TRUE, refreshDeletes FALSE). Integer fields of response values (PagedResults size, the SyncState ENUMERATED): the decoder is interpreted with the component's content octets fixed to literal strings of every length 0..12 (distinct, high-bit, all-ones, zero-padded) and the field must be the big-endian value modulo the cast to the field's type - whichever function reads the octets (parse_uint, a local helper, a loop in place). Y.opaque-octets-total: a component its RFC defines as opaque octets (transaction identifier, generated password, cookies, UUIDs) is decoded by a total function - a decoder that applies a UTF-8 test has a returning path for the test failing. Y.optional-absent: for every OPTIONAL / DEFAULT component of a response value's RFC shape the decoder has a returning path on which the cursor read at that position was not taken to have yielded an element (a read whose None flows into expect / unwrap leaves no such path). Envelope (Z13/Z14 encoder, Z.* decoder; the same rule functions as C02 S13/S14 and C03 T3): for every member of the partition control list Some / None x criticality true / false x value Some / None a control list is encoded as [0]{SEQ{OCTET type, BOOLEAN TRUE only-if critical, OCTET value only-if present}*} and the list decoder, interpreted exactly on every literal list of 0..3 controls over the ways the two optional components can be written (C03 T3), returns one entry per element in the order of the elements (a control list survives the envelope unchanged: same controls, same order), each with its own element's type, criticality = content octet != 0 (absent: false) and value (absent: None). "
-               "Not decided: byte-level equality of arbitrary cookies; lber's serialisation (C07).")
+               "Z15 the control list of an entry / referral reaches the caller (C10's Q2). Z16 a value of any content length is framed exactly: the one length writer under every encoder emits the minimal definite form for every length (C07's B2m threshold partition). "
+               "Not decided: byte-level equality of arbitrary cookies; the rest of lber's serialisation (C07).")
 TRUSTED = ['lber serialisation of a shape (C07)', 'RFC tables transcribed in this module']
 UNDECIDED = ['byte-level equality of arbitrary field contents', 'EndTxnResp (not in the property\'s list of response values)']
 ASSUMPTIONS = []
@@ -18,7 +19,16 @@ SHARED = [('C03', ('T1.dispatch',), 'Y0.response-name-and-value'),
           # "a control list survives the message envelope unchanged": for the messages of a Search that are not its result - entries and
           # continuation references - the decoded control list travels next to the protocolOp through the item channel; what the stream
           # hands out must be (tag, that list) for both kinds, whoever builds the value
-          ('C10', ('Q2.entry-from-received-item', 'Q2.coverage'), 'Z15.item-controls-reach-the-caller')]      # the name and value every extended-response parser starts from are lifted out of the ExtendedResponse by the LDAPResult decoder: [10] and [11], present = Some, whatever they contain
+          ('C10', ('Q2.entry-from-received-item', 'Q2.coverage'), 'Z15.item-controls-reach-the-caller'),
+          # "for all field values ... sizes, cookies of any length and content" / "the emitted ... BER value [is the one] the defining RFC
+          # prescribes" / "a control list survives the message envelope unchanged": X and Z13 / Z14 decide the *shape* of every value and
+          # of the control list for all field values; that a component of any content length - a 250-octet paging cookie inside a
+          # 256-octet SEQUENCE, a 256-octet control value or password - is then framed so that the peer finds its end where it is rests
+          # on the one length writer every encoder and the envelope go through: `write_length(n)` emits the definite form of n, with
+          # exactly as many length octets as n needs, for every n (C07's threshold-partition argument B2m.*).  (seed C19l: the octet
+          # count loop as `while len > 256`: a content of exactly 256 octets goes out as `81 00`)
+          ('C07', ('B2m.',), 'Z16.value-of-any-length-is-framed-exactly')]
+# Y0: the name and value every extended-response parser starts from are lifted out of the ExtendedResponse by the LDAPResult decoder: [10] and [11], present = Some, whatever they contain
 
 def inline_policy(c):
     """Default impls and every function of the control / exop modules themselves (private helpers, integer conversions of their
@@ -188,6 +198,9 @@ def check_encoded(ctx, B, short, kind, oid, crit, spec, o, pc, cname):
     """One returning path `o` of an encoder, evaluated for one member of its input partition: `pc` is the member stated as
     path-condition atoms followed by the path's own conditions (those on the fields that are not partitioned: the refresh mode)."""
     v = o.val
+    # (the requestValue of an extended operation is also part of C02's "the bytes written are exactly the requested operation":
+    # the Exop encoders report under a name of their own so that C02 can take exactly them over, see C02.SHARED)
+    RV = 'X.value' if kind == 'ctl' else 'X.value.exop'
     if v[0] != 'struct':
         ctx.fail('X.encoder-result', short, loc(B.root), 'encoder does not return a struct literal: %s' % absx.fmt(v)[:60]); return
     fl = dict(v[2])
@@ -204,32 +217,33 @@ def check_encoded(ctx, B, short, kind, oid, crit, spec, o, pc, cname):
     own = ','.join(('' if t else '!') + absx.fmt(a)[:24] for a, t in o.st.pc)[:80]
     inst = '%s|%s' % (short, cname + ('; ' + own if own else ''))
     if spec == NONE:
-        ctx.add('X.value', inst, loc(B.root), val == ('ctor', 'None', ()), 'value must be absent, found %s' % absx.fmt(val)[:60])
+        ctx.add(RV, inst, loc(B.root), val == ('ctor', 'None', ()), 'value must be absent, found %s' % absx.fmt(val)[:60])
     elif isinstance(spec, tuple) and spec[0] == RAW:
         ok = val[0] == 'ctor' and val[1] == 'Some' and spec[1](val[2][0], {})
-        ctx.add('X.value', inst, loc(B.root), ok, 'value must be the raw bytes of the field, found %s' % absx.fmt(val)[:60])
+        ctx.add(RV, inst, loc(B.root), ok, 'value must be the raw bytes of the field, found %s' % absx.fmt(val)[:60])
     else:
+        # which side of each optional element this member of the partition is on (X.optional-both-ways: the partition reaches both)
+        sides = {(r[3], r[1](pc)) for r in spec[3] if r[0] == 'OPT'} if spec[0] == 'C' and not undecided_optionals(spec, pc) else set()
         if short.startswith('passmod') and val == ('ctor', 'None', ()):
             # RFC 3062: the whole requestValue is omitted when no field is given
             none3 = all(is_some_pc(F('pm', n))(pc) is False for n in ('user_id', 'old_pass', 'new_pass'))
-            ctx.add('X.value', inst, loc(B.root), none3, 'requestValue omitted although a field is present')
-            return
+            ctx.add(RV, inst, loc(B.root), none3, 'for a value with %s: requestValue omitted although a field is present' % cname)
+            return sides
         # the whole encoded buffer: `buf[..]` (any spelling of the copy) or the buffer itself
         ok = val[0] == 'ctor' and val[1] == 'Some' and val[2][0][0] == 'index' and val[2][0][1][0] == 'encoded' and val[2][0][2][0] == 'struct' and val[2][0][2][1].endswith('RangeFull')
         enc = val[2][0][1] if ok else None
         if not ok and val[0] == 'ctor' and val[1] == 'Some' and val[2][0][0] == 'encoded':
             ok, enc = True, val[2][0]
         if not ok:
-            ctx.fail('X.value', inst, loc(B.root), 'value is not Some(<whole encoded buffer>): %s' % absx.fmt(val)[:80]); return
+            ctx.fail(RV, inst, loc(B.root), 'value is not Some(<whole encoded buffer>): %s' % absx.fmt(val)[:80]); return
         und = undecided_optionals(spec, pc)
         if und:
             # (cannot happen while every presence condition of the reference is a field of the partition: fail closed if it does)
-            ctx.fail('X.value', inst, loc(B.root), 'the presence of %s is not decided for this member of the input partition' % ', '.join(und)); return
+            ctx.fail(RV, inst, loc(B.root), 'the presence of %s is not decided for this member of the input partition' % ', '.join(und)); return
         env = {'elems': [], 'pc': pc}
         mism = compare(to_shape(enc[1]), spec, pc, env)
-        ctx.add('X.value', inst, loc(B.root), not mism, ('for a value with %s: ' % cname) + ('; '.join(mism)[:400] or 'matches the RFC'))
-        if not mism and spec[0] == 'C':
-            return {(r[3], r[1](pc)) for r in spec[3] if r[0] == 'OPT'}
+        ctx.add(RV, inst, loc(B.root), not mism, ('for a value with %s: ' % cname) + ('; '.join(mism)[:400] or 'matches the RFC'))
+        return sides
 
 def run(ctx):
     f = ctx.facts
@@ -260,6 +274,9 @@ def run(ctx):
         for case in cases:
             hook = CaseHook(lambda b, base=base: b == base, case)
             I = absx.Interp(f, B, unroll=1, inline=inline_policy, for_once=True, combinators=True, field_hook=hook)
+            # with the Option / bool fields fixed, a component list built by an iterator chain over an array of those fields
+            # (`[a, b, c].into_iter().flatten().enumerate().map(..).collect()`) is a sequence known by position at every stage
+            I.listed_seqs = True
             outs = [o for o in I.run(env=hook.env(I.param_env())) if o.kind in ('val', 'ret')]
             cname = case_name(case)
             ctx.add('X.encoder-paths', '%s|%s' % (short, cname), loc(B.root), len(outs) >= 1, 'no returning path for a value with %s' % cname)
